@@ -13,17 +13,41 @@ thread_local! {
     pub static STORE_CALLS: Cell<u64> = const { Cell::new(0) };
 }
 
+/// Puts a callback back into its slot when dropped - also when the callback unwinds (a monitor that
+/// aborts a busy-wait loop by panicking must stay installed for the next wait).
+struct RestoreSpin(Option<SpinCb>);
+impl Drop for RestoreSpin {
+    fn drop(&mut self) {
+        if let Some(cb) = self.0.take() {
+            SPIN.with(|s| {
+                let mut s = s.borrow_mut();
+                if s.is_none() {
+                    *s = Some(cb);
+                }
+            });
+        }
+    }
+}
+struct RestoreDma(Option<DmaCb>);
+impl Drop for RestoreDma {
+    fn drop(&mut self) {
+        if let Some(cb) = self.0.take() {
+            DMA.with(|s| {
+                let mut s = s.borrow_mut();
+                if s.is_none() {
+                    *s = Some(cb);
+                }
+            });
+        }
+    }
+}
+
 fn spin_tramp() {
     SPIN_CALLS.with(|c| c.set(c.get() + 1));
     let cb = SPIN.with(|s| s.borrow_mut().take());
-    if let Some(mut cb) = cb {
+    let mut g = RestoreSpin(cb);
+    if let Some(cb) = g.0.as_mut() {
         cb();
-        SPIN.with(|s| {
-            let mut s = s.borrow_mut();
-            if s.is_none() {
-                *s = Some(cb);
-            }
-        });
     }
 }
 
@@ -37,14 +61,9 @@ fn dma_tramp(kind: DmaAccess, q: u16) {
         STORE_CALLS.with(|c| c.set(c.get() + 1));
     }
     let cb = DMA.with(|s| s.borrow_mut().take());
-    if let Some(mut cb) = cb {
+    let mut g = RestoreDma(cb);
+    if let Some(cb) = g.0.as_mut() {
         cb(kind, q);
-        DMA.with(|s| {
-            let mut s = s.borrow_mut();
-            if s.is_none() {
-                *s = Some(cb);
-            }
-        });
     }
 }
 
